@@ -195,6 +195,29 @@ def run(ck):
             ck.fail(["C14", "token-pair", "%s %s" % (pk, w)], "%r followed by %r across %r is not lexed as %s then %s" % (pt, w, sp, pk, wk),
                     {"cmd": "lex", "text_hex": hexs(text)}, ra[:200], str(["Id", pk, wk, "Semi"]))
     ck.count("punct_then_word", 0, set(ptexts), sample={"text": ptexts[len(ptexts) // 3]})
+    # (1f) a signed decimal literal glued to what follows: the sign belongs to the digits and to nothing else - `-4abc` is the literal
+    # `-4` and the identifier `abc` (a digit-leading identifier has no sign), `+0x1F` is `+0` and `x1F` (hexadecimal and binary
+    # literals are unsigned), a sign without a digit is punctuation
+    signed = []
+    for sg in "+-":
+        for digits in ("4", "12", "0", "007"):
+            for tail, tk in (("abc", "Id"), ("_lo", "Id"), ("x1F", "Id"), ("b1", "Id"), ("b", "Id"), ("x", "Id"), ("e5", "Id")):
+                signed.append((sg + digits + tail, [("IntVal", len(sg + digits)), (tk, len(tail))]))
+            signed.append((sg + digits + "]", [("IntVal", len(sg + digits)), ("RSquare", 1)]))
+            signed.append(("i" + sg + digits + "j]", [("Id", 1), ("IntVal", len(sg + digits)), ("Id", 1), ("RSquare", 1)]))
+        signed.append((sg + "abc", [("Plus" if sg == "+" else "Minus", 1), ("Id", 3)]))
+        signed.append((sg + sg + "1", [("Plus" if sg == "+" else "Minus", 1), ("IntVal", 2)]))
+    stexts = [t for t, _ in signed]
+    sa_, _ = core.compare(ck, "signed_glued", stexts, lambda s_: "lex %s" % hexs(s_), counted=True)
+    for (text, want), ra in zip(signed, sa_):
+        got = []
+        for x in ra.split(" "):
+            if x and x.split(":")[0] not in ("Whitespace", "Eof"):
+                k_, _, n_ = x.partition(":")
+                got.append((k_, int(n_) if n_.isdigit() else None))
+        if got != want:
+            ck.fail(["C14", "signed-literal", text], "%r is not lexed as %s" % (text, want), {"cmd": "lex", "text_hex": hexs(text)}, ra[:200], str(want))
+    ck.count("signed_glued", 0, set(stexts), sample={"text": stexts[3]})
     # (2) spec-level sequences: reference expectation vs implementation (and model)
     cases = []
     for _ in range(1500 if quick else 400000):
